@@ -666,10 +666,12 @@ class _InternalBaseTracer(_InternalBaseTracerSuper, metaclass=MetaTracerStateMac
                     EMIT_EVENT,
                     EXEC_SAVED_THUNK,
                     TRACE_LAMBDA,
-                    TRACING_ENABLED,
                 } | self.guards:
                     if hasattr(builtins, extra_builtin):
                         delattr(builtins, extra_builtin)
+                # lambdas, comprehensions and loops compiled under tracing still test this
+                # flag when they run later: leave it defined (like FUNCTION_TRACING_ENABLED)
+                setattr(builtins, TRACING_ENABLED, False)
             elif orig_exec_saved_thunk is not None:
                 setattr(builtins, EXEC_SAVED_THUNK, orig_exec_saved_thunk)
 
